@@ -765,7 +765,16 @@ func (ex *Exec) zeroBacking(r Term, et types.Type) {
 	for i, l := range leavesOf(et) {
 		ls := leafSortFix(ex, l)
 		key := elemKey(et, nil) + l.path
-		c := Term{fmt.Sprintf("((as const %s) %s)", ArrSort(SInt, ls), zs[i].S), ArrSort(SInt, ls)}
+		var c Term
+		if ls == SInt || ls == SBool || ls == SReal {
+			c = Term{fmt.Sprintf("((as const %s) %s)", ArrSort(SInt, ls), zs[i].S), ArrSort(SInt, ls)}
+		} else {
+			// cvc5 only accepts values in constant arrays: zero row by axiom
+			c = ex.vc.Fresh("zerorow", ArrSort(SInt, ls))
+			ex.vc.fresh++
+			q := fmt.Sprintf("j!q%d", ex.vc.fresh)
+			ex.vc.AssumeRaw(fmt.Sprintf("(forall ((%s Int)) (! (= (select %s %s) %s) :pattern ((select %s %s))))", q, c.S, q, zs[i].S, c.S, q), "zero-initialised backing array")
+		}
 		ex.hStoreRow(key, ArrSort(SInt, ArrSort(SInt, ls)), r, c)
 	}
 }
